@@ -34,7 +34,8 @@ pub const F_RESTORE: usize = 20;
 pub const F_RESET_STORM: usize = 21;
 pub const F_DUP_STORM: usize = 22;
 pub const F_SOAK_LOOP: usize = 23;
-pub const N_FAULTS: usize = 24;
+pub const F_CLOCK_TICK: usize = 24;
+pub const N_FAULTS: usize = 25;
 pub const FAULT_NAMES: [&str; N_FAULTS] = [
     "drop",
     "dup",
@@ -60,6 +61,7 @@ pub const FAULT_NAMES: [&str; N_FAULTS] = [
     "reset-storm",
     "dup-storm",
     "soak-loop",
+    "clock-ticks-inside-calls(runs)",
 ];
 
 /// Per-property weights. One world, shifted towards the property's subject.
@@ -140,6 +142,7 @@ enum ValueMode {
 #[derive(Clone, Debug)]
 pub struct Cfg {
     pub timeout_ns: u128,
+    pub read_step_ns: u128,
     pub channels: Vec<u8>,
     pub flat: bool,
     pub len: usize,
@@ -172,6 +175,7 @@ impl Cfg {
         }
         J::obj()
             .set("timeout_ns", J::Str(self.timeout_ns.to_string()))
+            .set("clock_read_step_ns", J::Str(self.read_step_ns.to_string()))
             .set("channels", J::arr(self.channels.iter().map(|c| J::i(*c))))
             .set("scheduler", J::s(if self.flat { "flat" } else { "rig" }))
             .set("max_events", J::us(self.len))
@@ -328,8 +332,22 @@ pub fn draw_cfg(r: &mut Rng, p: &Preset) -> Cfg {
     } else {
         0
     };
+    // time passes inside calls: in one run out of seven every clock read moves the clock on
+    let read_step_ns = if !fault_free && r.chance(1, 5) || fault_free && r.chance(1, 20) {
+        rate[F_CLOCK_TICK] = 1;
+        match r.below(6) {
+            0 | 1 => 1,
+            2 => 2,
+            3 => (timeout_ns / 3).max(1).min(1 << 40),
+            4 => timeout_ns.max(1).min(1 << 40),
+            _ => *r.pick(&[1_000u128, 1_000_000, 1_000_000_000]),
+        }
+    } else {
+        0
+    };
     Cfg {
         timeout_ns,
+        read_step_ns,
         channels: all,
         flat,
         len,
@@ -462,7 +480,10 @@ impl<'a> Gen<'a> {
             g.epilogue();
         }
         let cfg = g.cfg.clone();
-        (Trace { timeout_ns: cfg.timeout_ns, events: g.ev }, cfg)
+        if cfg.read_step_ns > 0 {
+            g.stats.faults_fired[F_CLOCK_TICK] += 1;
+        }
+        (Trace { timeout_ns: cfg.timeout_ns, read_step_ns: cfg.read_step_ns, events: g.ev }, cfg)
     }
 
     fn fire(&mut self, f: usize, ch: Option<u8>) {
